@@ -7,6 +7,23 @@ use ciborium::value::{Integer, Value};
 use coset::*;
 use std::convert::TryFrom;
 
+/// The property on whose behalf the probe runs (env PROBE_PROPERTY, set by tools/check.py); a comparison is made only if
+/// it witnesses that property (`tags` = comma-separated ids); no variable = every comparison.
+pub fn relevant(tags: &str) -> bool {
+    match std::env::var("PROBE_PROPERTY") { Ok(p) if !p.is_empty() => tags.split(',').any(|t| t == p), _ => true }
+}
+/// C02 on a to-be-signed/MACed/AAD structure: element `idx` of the array the real function produced is the byte string `slot`
+/// (whatever the other elements look like); structures that are not well-formed CBOR arrays are not C02's business
+pub fn slot_mismatch(produced: &[u8], idx: usize, slot: &[u8]) -> bool {
+    match ciborium::de::from_reader::<Value, _>(produced) {
+        Ok(Value::Array(a)) => match a.get(idx) { Some(Value::Bytes(b)) => b.as_slice() != slot, _ => true },
+        _ => false,
+    }
+}
+/// print a disagreement if it witnesses the property the probe runs for; -> whether it counts
+pub fn report(tags: &str, msg: String) -> bool {
+    if relevant(tags) { println!("FAILING-INPUT {}", msg); true } else { false }
+}
 pub fn hex(b: &[u8]) -> String { b.iter().map(|x| format!("{:02x}", x)).collect() }
 
 // ---------------------------------------------------------------- reference CBOR encoder (deterministic)
@@ -47,8 +64,10 @@ fn protected_palette() -> Vec<(ProtectedHeader, Vec<u8>)> {
 pub fn probe_structures() -> i32 {
     let prots = protected_palette();
     let mut n = 0u64;
-    macro_rules! check { ($got:expr, $want:expr, $what:expr) => {{ n += 1; let g: Vec<u8> = $got; let w: Vec<u8> = $want; if g != w {
-        println!("FAILING-INPUT {}: got {}.. ({} bytes) want {}.. ({} bytes)", $what, hex(&g[..g.len().min(24)]), g.len(), hex(&w[..w.len().min(24)]), w.len()); return 1; } }}; }
+    macro_rules! check { ($tags:expr, $got:expr, $want:expr, $what:expr) => {{ if relevant($tags) { n += 1; let g: Vec<u8> = $got; let w: Vec<u8> = $want; if g != w {
+        println!("FAILING-INPUT {}: got {}.. ({} bytes) want {}.. ({} bytes)", $what, hex(&g[..g.len().min(24)]), g.len(), hex(&w[..w.len().min(24)]), w.len()); return 1; } } }}; }
+    macro_rules! slot { ($got:expr, $idx:expr, $slot:expr, $what:expr) => {{ if relevant("C02") { n += 1; let g: Vec<u8> = $got; if slot_mismatch(&g, $idx, $slot) {
+        println!("FAILING-INPUT {}: element {} of the structure is not the protected byte string {}.. ({} bytes)", $what, $idx, hex(&$slot[..$slot.len().min(24)]), $slot.len()); return 1; } } }}; }
     for (pi, (p, slot)) in prots.iter().enumerate() {
         for (li, &la) in LENS.iter().enumerate() {
             for &lp in &[LENS[(li * 5 + 3) % LENS.len()], 0, la] {
@@ -57,48 +76,52 @@ pub fn probe_structures() -> i32 {
                 let what = format!("protected#{} aad_len={} payload_len={}", pi, la, lp);
                 // Sig_structure, all three contexts, with and without sign_protected
                 for (c, name) in [(SignatureContext::CoseSign1, "Signature1"), (SignatureContext::CoseSignature, "Signature"), (SignatureContext::CounterSignature, "CounterSignature")] {
-                    check!(sig_structure_data(c, p.clone(), None, &aad, &payload), structure(name, &[slot, &aad, &payload]), format!("sig_structure_data {} {}", name, what));
+                    check!("C03", sig_structure_data(c, p.clone(), None, &aad, &payload), structure(name, &[slot, &aad, &payload]), format!("sig_structure_data {} {}", name, what));
+                    slot!(sig_structure_data(c, p.clone(), None, &aad, &payload), 1, slot, format!("sig_structure_data {} {}", name, what));
                     for (p2, slot2) in prots.iter().take(3) {
-                        check!(sig_structure_data(c, p.clone(), Some(p2.clone()), &aad, &payload), structure(name, &[slot, slot2, &aad, &payload]), format!("sig_structure_data+sign {} {}", name, what));
+                        check!("C03", sig_structure_data(c, p.clone(), Some(p2.clone()), &aad, &payload), structure(name, &[slot, slot2, &aad, &payload]), format!("sig_structure_data+sign {} {}", name, what));
+                        slot!(sig_structure_data(c, p.clone(), Some(p2.clone()), &aad, &payload), 2, slot2, format!("sig_structure_data+sign {} {}", name, what));
                     }
                 }
                 for (c, name) in [(MacContext::CoseMac, "MAC"), (MacContext::CoseMac0, "MAC0")] {
-                    check!(mac_structure_data(c, p.clone(), &aad, &payload), structure(name, &[slot, &aad, &payload]), format!("mac_structure_data {} {}", name, what));
+                    check!("C04", mac_structure_data(c, p.clone(), &aad, &payload), structure(name, &[slot, &aad, &payload]), format!("mac_structure_data {} {}", name, what));
+                    slot!(mac_structure_data(c, p.clone(), &aad, &payload), 1, slot, format!("mac_structure_data {} {}", name, what));
                 }
                 for (c, name) in [(EncryptionContext::CoseEncrypt, "Encrypt"), (EncryptionContext::CoseEncrypt0, "Encrypt0"), (EncryptionContext::EncRecipient, "Enc_Recipient"),
                                   (EncryptionContext::MacRecipient, "Mac_Recipient"), (EncryptionContext::RecRecipient, "Rec_Recipient")] {
-                    check!(enc_structure_data(c, p.clone(), &aad), structure(name, &[slot, &aad]), format!("enc_structure_data {} {}", name, what));
+                    check!("C05", enc_structure_data(c, p.clone(), &aad), structure(name, &[slot, &aad]), format!("enc_structure_data {} {}", name, what));
+                    slot!(enc_structure_data(c, p.clone(), &aad), 1, slot, format!("enc_structure_data {} {}", name, what));
                 }
                 // typed wrappers and closures (embedded + detached, create + verify, fallible + infallible)
                 let s1 = CoseSign1 { protected: p.clone(), payload: Some(payload.clone()), ..Default::default() };
-                check!(s1.tbs_data(&aad), structure("Signature1", &[slot, &aad, &payload]), format!("CoseSign1::tbs_data {}", what));
+                check!("C03", s1.tbs_data(&aad), structure("Signature1", &[slot, &aad, &payload]), format!("CoseSign1::tbs_data {}", what));
                 let s1d = CoseSign1 { protected: p.clone(), ..Default::default() };
-                check!(s1d.tbs_detached_data(&payload, &aad), structure("Signature1", &[slot, &aad, &payload]), format!("CoseSign1::tbs_detached_data {}", what));
+                check!("C03", s1d.tbs_detached_data(&payload, &aad), structure("Signature1", &[slot, &aad, &payload]), format!("CoseSign1::tbs_detached_data {}", what));
                 let mut seen: Vec<u8> = vec![];
                 let _ = s1.verify_signature(&aad, |_s, d| -> Result<(), ()> { seen = d.to_vec(); Ok(()) });
-                check!(seen.clone(), structure("Signature1", &[slot, &aad, &payload]), format!("CoseSign1::verify_signature {}", what));
+                check!("C03,C06", seen.clone(), structure("Signature1", &[slot, &aad, &payload]), format!("CoseSign1::verify_signature {}", what));
                 let sig = CoseSignature { protected: prots[1].0.clone(), ..Default::default() };
                 let sg = CoseSign { protected: p.clone(), payload: Some(payload.clone()), signatures: vec![sig.clone()], ..Default::default() };
-                check!(sg.tbs_data(&aad, &sig), structure("Signature", &[slot, &prots[1].1, &aad, &payload]), format!("CoseSign::tbs_data {}", what));
+                check!("C03", sg.tbs_data(&aad, &sig), structure("Signature", &[slot, &prots[1].1, &aad, &payload]), format!("CoseSign::tbs_data {}", what));
                 let sgd = CoseSign { protected: p.clone(), signatures: vec![sig.clone()], ..Default::default() };
-                check!(sgd.tbs_detached_data(&payload, &aad, &sig), structure("Signature", &[slot, &prots[1].1, &aad, &payload]), format!("CoseSign::tbs_detached_data {}", what));
+                check!("C03", sgd.tbs_detached_data(&payload, &aad, &sig), structure("Signature", &[slot, &prots[1].1, &aad, &payload]), format!("CoseSign::tbs_detached_data {}", what));
                 let _ = sgd.verify_detached_signature(0, &payload, &aad, |_s, d| -> Result<(), ()> { seen = d.to_vec(); Ok(()) });
-                check!(seen.clone(), structure("Signature", &[slot, &prots[1].1, &aad, &payload]), format!("CoseSign::verify_detached_signature {}", what));
+                check!("C03,C06", seen.clone(), structure("Signature", &[slot, &prots[1].1, &aad, &payload]), format!("CoseSign::verify_detached_signature {}", what));
                 let m0 = CoseMac0 { protected: p.clone(), payload: Some(payload.clone()), ..Default::default() };
                 let _ = m0.verify_tag(&aad, |_t, d| -> Result<(), ()> { seen = d.to_vec(); Ok(()) });
-                check!(seen.clone(), structure("MAC0", &[slot, &aad, &payload]), format!("CoseMac0::verify_tag {}", what));
+                check!("C04,C06", seen.clone(), structure("MAC0", &[slot, &aad, &payload]), format!("CoseMac0::verify_tag {}", what));
                 let m = CoseMac { protected: p.clone(), payload: Some(payload.clone()), ..Default::default() };
                 let _ = m.verify_tag(&aad, |_t, d| -> Result<(), ()> { seen = d.to_vec(); Ok(()) });
-                check!(seen.clone(), structure("MAC", &[slot, &aad, &payload]), format!("CoseMac::verify_tag {}", what));
+                check!("C04,C06", seen.clone(), structure("MAC", &[slot, &aad, &payload]), format!("CoseMac::verify_tag {}", what));
                 let e0 = CoseEncrypt0 { protected: p.clone(), ciphertext: Some(vec![1]), ..Default::default() };
                 let _ = e0.decrypt(&aad, |_c, d| -> Result<Vec<u8>, ()> { seen = d.to_vec(); Ok(vec![]) });
-                check!(seen.clone(), structure("Encrypt0", &[slot, &aad]), format!("CoseEncrypt0::decrypt {}", what));
+                check!("C05,C06", seen.clone(), structure("Encrypt0", &[slot, &aad]), format!("CoseEncrypt0::decrypt {}", what));
                 let e = CoseEncrypt { protected: p.clone(), ciphertext: Some(vec![1]), ..Default::default() };
                 let _ = e.decrypt(&aad, |_c, d| -> Result<Vec<u8>, ()> { seen = d.to_vec(); Ok(vec![]) });
-                check!(seen.clone(), structure("Encrypt", &[slot, &aad]), format!("CoseEncrypt::decrypt {}", what));
+                check!("C05,C06", seen.clone(), structure("Encrypt", &[slot, &aad]), format!("CoseEncrypt::decrypt {}", what));
                 let r = CoseRecipient { protected: p.clone(), ciphertext: Some(vec![1]), ..Default::default() };
                 let _ = r.decrypt(EncryptionContext::MacRecipient, &aad, |_c, d| -> Result<Vec<u8>, ()> { seen = d.to_vec(); Ok(vec![]) });
-                check!(seen.clone(), structure("Mac_Recipient", &[slot, &aad]), format!("CoseRecipient::decrypt {}", what));
+                check!("C05,C06", seen.clone(), structure("Mac_Recipient", &[slot, &aad]), format!("CoseRecipient::decrypt {}", what));
             }
         }
     }
@@ -113,8 +136,8 @@ pub fn probe_structures() -> i32 {
         let s1 = CoseSign1::from_slice(&s1.to_vec().unwrap()).unwrap();
         let mut verified: Vec<u8> = vec![];
         let _ = s1.verify_signature(&aad, |s, d| -> Result<(), ()> { if s != [7; 4] { verified = vec![0xff]; } else { verified = d.to_vec(); } Ok(()) });
-        check!(verified.clone(), created[0].clone(), format!("Sign1 create/verify aad_len={}", la));
-        check!(created[0].clone(), structure("Signature1", &[&slot, &aad, &payload]), format!("Sign1 create aad_len={}", la));
+        check!("C06", verified.clone(), created[0].clone(), format!("Sign1 create/verify aad_len={}", la));
+        check!("C03,C06", created[0].clone(), structure("Signature1", &[&slot, &aad, &payload]), format!("Sign1 create aad_len={}", la));
         // multi signer, fallible + infallible, detached
         let sig_hdr = HeaderBuilder::new().key_id(vec![1]).build();
         let sslot = sig_hdr.clone().to_vec().unwrap();
@@ -127,8 +150,8 @@ pub fn probe_structures() -> i32 {
         let b = CoseSign::from_tagged_slice(&b.to_tagged_vec().unwrap()).unwrap();
         for i in 0..2 {
             let _ = b.verify_detached_signature(i, &payload, &aad, |_s, d| -> Result<(), ()> { verified = d.to_vec(); Ok(()) });
-            check!(verified.clone(), c2[i].clone(), format!("Sign detached signer {} create/verify aad_len={}", i, la));
-            check!(c2[i].clone(), structure("Signature", &[&slot, &sslot, &aad, &payload]), format!("Sign detached signer {} create aad_len={}", i, la));
+            check!("C06", verified.clone(), c2[i].clone(), format!("Sign detached signer {} create/verify aad_len={}", i, la));
+            check!("C03,C06", c2[i].clone(), structure("Signature", &[&slot, &sslot, &aad, &payload]), format!("Sign detached signer {} create aad_len={}", i, la));
         }
         let mut c3: Vec<Vec<u8>> = vec![];
         let b = CoseSignBuilder::new().protected(hdr.clone()).payload(payload.clone())
@@ -138,19 +161,19 @@ pub fn probe_structures() -> i32 {
         let b = CoseSign::from_slice(&b.to_vec().unwrap()).unwrap();
         for i in 0..2 {
             let _ = b.verify_signature(i, &aad, |_s, d| -> Result<(), ()> { verified = d.to_vec(); Ok(()) });
-            check!(verified.clone(), c3[i].clone(), format!("Sign signer {} create/verify aad_len={}", i, la));
+            check!("C06", verified.clone(), c3[i].clone(), format!("Sign signer {} create/verify aad_len={}", i, la));
         }
         let mut c4: Vec<u8> = vec![];
         let m0 = CoseMac0Builder::new().protected(hdr.clone()).payload(payload.clone()).try_create_tag(&aad, |d| -> Result<Vec<u8>, ()> { c4 = d.to_vec(); Ok(vec![3]) }).unwrap().build();
         let m0 = CoseMac0::from_slice(&m0.to_vec().unwrap()).unwrap();
         let _ = m0.verify_tag(&aad, |_t, d| -> Result<(), ()> { verified = d.to_vec(); Ok(()) });
-        check!(verified.clone(), c4.clone(), format!("Mac0 create/verify aad_len={}", la));
+        check!("C06", verified.clone(), c4.clone(), format!("Mac0 create/verify aad_len={}", la));
         let mut c5: Vec<u8> = vec![];
         let e0 = CoseEncrypt0Builder::new().protected(hdr.clone()).create_ciphertext(&payload, &aad, |_pt, d| { c5 = d.to_vec(); vec![4] }).build();
         let e0 = CoseEncrypt0::from_slice(&e0.to_vec().unwrap()).unwrap();
         let _ = e0.decrypt(&aad, |_c, d| -> Result<Vec<u8>, ()> { verified = d.to_vec(); Ok(vec![]) });
-        check!(verified.clone(), c5.clone(), format!("Encrypt0 create/decrypt aad_len={}", la));
-        check!(c5.clone(), structure("Encrypt0", &[&slot, &aad]), format!("Encrypt0 create aad_len={}", la));
+        check!("C06", verified.clone(), c5.clone(), format!("Encrypt0 create/decrypt aad_len={}", la));
+        check!("C05,C06", c5.clone(), structure("Encrypt0", &[&slot, &aad]), format!("Encrypt0 create aad_len={}", la));
     }
     println!("probe structures: {} comparisons, no disagreement", n);
     0
@@ -281,9 +304,9 @@ pub fn probe_headers() -> i32 {
                        match CoseSign1::from_cbor_value(msg) { Ok(s) => (true, cmp_header_fields(&v, &s.unprotected)), Err(_) => (false, None) } }
             };
             let mut b = vec![]; ciborium::ser::into_writer(&v, &mut b).unwrap();
-            if got != want { println!("FAILING-INPUT header map {} (context {}): crate {} it, RFC 8152 3.1 says {}", hex(&b), ["standalone", "protected bstr", "unprotected of COSE_Sign1"][ctx],
-                if got { "accepts" } else { "rejects" }, if want { "accept" } else { "reject" }); return 1; }
-            if let Some(f) = fields { println!("FAILING-INPUT header map {} (context {}): field {} does not equal the wire value", hex(&b), ctx, f); return 1; }
+            if got != want { let dup = { let ls: Vec<_> = m.iter().map(|(k, _)| label_ref(k)).collect(); (0..ls.len()).any(|a| (0..a).any(|b2| ls[a].is_some() && ls[a] == ls[b2])) }; let tags = if dup { "C08,C09,C12" } else { "C08,C09" }; if report(tags, format!("header map {} (context {}): crate {} it, RFC 8152 3.1 says {}", hex(&b), ["standalone", "protected bstr", "unprotected of COSE_Sign1"][ctx],
+                if got { "accepts" } else { "rejects" }, if want { "accept" } else { "reject" })) { return 1; } }
+            if let Some(f) = fields { let tags = if f == "original_data" { "C02,C09" } else { "C08,C09" }; if report(tags, format!("header map {} (context {}): field {} does not equal the wire value", hex(&b), ctx, f)) { return 1; } }
         }
     }
     println!("probe headers: {} decodes compared with the reference predicate, no disagreement", n);
@@ -297,12 +320,12 @@ pub fn probe_framing() -> i32 {
     let mut n = 0u64;
     macro_rules! framing { ($t:ty, $body:expr, $name:expr) => {{
         let body: Vec<u8> = $body;
-        if <$t>::from_slice(&body).is_err() { println!("FAILING-INPUT {} rejects {}", $name, hex(&body)); return 1; }
-        for cut in 0..body.len() { n += 1; if <$t>::from_slice(&body[..cut]).is_ok() { println!("FAILING-INPUT {} accepts the proper prefix {}", $name, hex(&body[..cut])); return 1; } }
+        if <$t>::from_slice(&body).is_err() { if report("C13", format!("{} rejects {}", $name, hex(&body))) { return 1; } }
+        for cut in 0..body.len() { n += 1; if <$t>::from_slice(&body[..cut]).is_ok() { if report("C13", format!("{} accepts the proper prefix {}", $name, hex(&body[..cut]))) { return 1; } } }
         for suf in [vec![0u8], vec![0xf6], vec![0xff], body.clone()] { n += 1; let mut b = body.clone(); b.extend(&suf);
-            match <$t>::from_slice(&b) { Err(CoseError::ExtraneousData) => {}, other => { println!("FAILING-INPUT {} on {} gives {:?}, want ExtraneousData", $name, hex(&b), other.map(|_| "Ok")); return 1; } } }
+            match <$t>::from_slice(&b) { Err(CoseError::ExtraneousData) => {}, other => { if report("C13", format!("{} on {} gives {:?}, want ExtraneousData", $name, hex(&b), other.map(|_| "Ok"))) { return 1; } } } }
         let via_value = <$t>::from_cbor_value(ciborium::de::from_reader(&body[..]).unwrap());
-        if via_value.ok() != <$t>::from_slice(&body).ok() { println!("FAILING-INPUT {}: from_slice and from_cbor_value disagree on {}", $name, hex(&body)); return 1; }
+        if via_value.ok() != <$t>::from_slice(&body).ok() { if report("C13", format!("{}: from_slice and from_cbor_value disagree on {}", $name, hex(&body))) { return 1; } }
     }}; }
     framing!(CoseSign1, sign1.clone(), "CoseSign1");
     framing!(CoseEncrypt0, enc0.clone(), "CoseEncrypt0");
@@ -315,7 +338,7 @@ pub fn probe_framing() -> i32 {
     for inner in [vec![0xa0u8, 0x00], vec![0xa1, 0x01, 0x26, 0xa0], vec![0xa0, 0xa0], vec![0xa1, 0x01]] {
         n += 1;
         let mut msg = vec![0x84]; msg.extend(bstr(&inner)); msg.extend([0xa0, 0xf6, 0x40]);
-        if CoseSign1::from_slice(&msg).is_ok() { println!("FAILING-INPUT COSE_Sign1 {} accepted although its protected bstr is not exactly one header map", hex(&msg)); return 1; }
+        if CoseSign1::from_slice(&msg).is_ok() { if report("C09,C13", format!("COSE_Sign1 {} accepted although its protected bstr is not exactly one header map", hex(&msg))) { return 1; } }
     }
     // tags
     let tags: [u64; 14] = [0, 15, 16, 17, 18, 19, 61, 96, 97, 98, 99, 55799, (1u64 << 32) + 18, u64::MAX];
@@ -324,15 +347,15 @@ pub fn probe_framing() -> i32 {
             n += 1;
             let mut b = head(6, t); b.extend($body);
             let got = <$t>::from_tagged_slice(&b).is_ok();
-            if got != (t == $tag) { println!("FAILING-INPUT {}::from_tagged_slice {} tag {}: {}", $name, hex(&b), t, if got { "accepted" } else { "rejected" }); return 1; }
-            if <$t>::from_slice(&b).is_ok() { println!("FAILING-INPUT {}::from_slice accepts the tagged item {}", $name, hex(&b)); return 1; }
+            if got != (t == $tag) { if report("C14", format!("{}::from_tagged_slice {} tag {}: {}", $name, hex(&b), t, if got { "accepted" } else { "rejected" })) { return 1; } }
+            if <$t>::from_slice(&b).is_ok() { if report("C14", format!("{}::from_slice accepts the tagged item {}", $name, hex(&b))) { return 1; } }
             let mut bb = head(6, $tag); bb.extend(&b);
-            if <$t>::from_tagged_slice(&bb).is_ok() { println!("FAILING-INPUT {} accepts the doubly tagged item {}", $name, hex(&bb)); return 1; }
+            if <$t>::from_tagged_slice(&bb).is_ok() { if report("C14", format!("{} accepts the doubly tagged item {}", $name, hex(&bb))) { return 1; } }
         }
-        if <$t>::from_tagged_slice(&$body).is_ok() { println!("FAILING-INPUT {}::from_tagged_slice accepts an untagged item", $name); return 1; }
+        if <$t>::from_tagged_slice(&$body).is_ok() { if report("C14", format!("{}::from_tagged_slice accepts an untagged item", $name)) { return 1; } }
         let v = <$t>::from_slice(&$body).unwrap();
         let mut want = head(6, $tag); want.extend(v.clone().to_vec().unwrap());
-        if v.to_tagged_vec().unwrap() != want { println!("FAILING-INPUT {}::to_tagged_vec is not tag {} applied to to_vec", $name, $tag); return 1; }
+        if v.to_tagged_vec().unwrap() != want { if report("C14", format!("{}::to_tagged_vec is not tag {} applied to to_vec", $name, $tag)) { return 1; } }
     }}; }
     tagged!(CoseSign1, 18, sign1.clone(), "CoseSign1");
     tagged!(CoseEncrypt0, 16, enc0.clone(), "CoseEncrypt0");
@@ -358,45 +381,45 @@ pub fn probe_integers() -> i32 {
         n += 1;
         // plain label
         match Label::from_cbor_value(iv.clone()) {
-            Ok(Label::Int(v)) if in_i64 && v as i128 == x => { if Label::Int(v).to_cbor_value().ok() != Some(iv.clone()) { println!("FAILING-INPUT Label {} does not encode back to the same integer", x); return 1; } }
+            Ok(Label::Int(v)) if in_i64 && v as i128 == x => { if Label::Int(v).to_cbor_value().ok() != Some(iv.clone()) { if report("C15,C18", format!("Label {} does not encode back to the same integer", x)) { return 1; } } }
             Err(CoseError::OutOfRangeIntegerValue) if !in_i64 => {}
-            other => { println!("FAILING-INPUT Label::from_cbor_value({}) = {:?}", x, other); return 1; }
+            other => { if report("C15,C18", format!("Label::from_cbor_value({}) = {:?}", x, other)) { return 1; } }
         }
         // registry labels: out of range must be OutOfRange (in range: registered/private/unregistered is C17's business)
-        if !in_i64 && !oor(Algorithm::from_cbor_value(iv.clone()).map(|_| ())) { println!("FAILING-INPUT Algorithm::from_cbor_value({}) is not OutOfRangeIntegerValue", x); return 1; }
-        if !in_i64 && !oor(ContentType::from_cbor_value(iv.clone()).map(|_| ())) { println!("FAILING-INPUT ContentType::from_cbor_value({}) is not OutOfRangeIntegerValue", x); return 1; }
+        if !in_i64 && !oor(Algorithm::from_cbor_value(iv.clone()).map(|_| ())) { if report("C15,C18", format!("Algorithm::from_cbor_value({}) is not OutOfRangeIntegerValue", x)) { return 1; } }
+        if !in_i64 && !oor(ContentType::from_cbor_value(iv.clone()).map(|_| ())) { if report("C15,C18", format!("ContentType::from_cbor_value({}) is not OutOfRangeIntegerValue", x)) { return 1; } }
         // timestamp
         match cwt::Timestamp::from_cbor_value(iv.clone()) {
             Ok(cwt::Timestamp::WholeSeconds(v)) if in_i64 && v as i128 == x => {}
             Err(CoseError::OutOfRangeIntegerValue) if !in_i64 => {}
-            other => { println!("FAILING-INPUT Timestamp::from_cbor_value({}) = {:?}", x, other); return 1; }
+            other => { if report("C15,C18", format!("Timestamp::from_cbor_value({}) = {:?}", x, other)) { return 1; } }
         }
         // nonce (both parties of a KDF context, and standalone)
         let pi = Value::Array(vec![Value::Null, iv.clone(), Value::Null]);
         match PartyInfo::from_cbor_value(pi.clone()) {
-            Ok(p) if in_i64 && p.nonce == Some(Nonce::Integer(x as i64)) => { if p.to_cbor_value().ok() != Some(pi.clone()) { println!("FAILING-INPUT PartyInfo nonce {} does not encode back", x); return 1; } }
+            Ok(p) if in_i64 && p.nonce == Some(Nonce::Integer(x as i64)) => { if p.to_cbor_value().ok() != Some(pi.clone()) { if report("C15,C18", format!("PartyInfo nonce {} does not encode back", x)) { return 1; } } }
             Err(CoseError::OutOfRangeIntegerValue) if !in_i64 => {}
-            other => { println!("FAILING-INPUT PartyInfo nonce {} decodes to {:?}", x, other); return 1; }
+            other => { if report("C15,C18", format!("PartyInfo nonce {} decodes to {:?}", x, other)) { return 1; } }
         }
         // key data length (u64)
         let sp = Value::Array(vec![iv.clone(), Value::Bytes(vec![])]);
         let in_u64 = x >= 0;
         match SuppPubInfo::from_cbor_value(sp.clone()) {
-            Ok(s) if in_u64 && s.key_data_length as i128 == x => { if s.to_cbor_value().ok() != Some(sp.clone()) { println!("FAILING-INPUT SuppPubInfo length {} does not encode back", x); return 1; } }
+            Ok(s) if in_u64 && s.key_data_length as i128 == x => { if s.to_cbor_value().ok() != Some(sp.clone()) { if report("C15,C18", format!("SuppPubInfo length {} does not encode back", x)) { return 1; } } }
             Err(CoseError::OutOfRangeIntegerValue) if !in_u64 => {}
-            other => { println!("FAILING-INPUT SuppPubInfo keyDataLength {} decodes to {:?}", x, other.map(|s| s.key_data_length)); return 1; }
+            other => { if report("C15,C18", format!("SuppPubInfo keyDataLength {} decodes to {:?}", x, other.map(|s| s.key_data_length))) { return 1; } }
         }
         // map label positions: header, key, claims; and preserved when not interpreted (extra parameter VALUE)
         let hm = Value::Map(vec![(iv.clone(), Value::Null)]);
         let hr = Header::from_cbor_value(hm.clone());
-        if in_i64 != hr.is_ok() && !(1..=7).contains(&x) { println!("FAILING-INPUT header label {}: ok={}", x, hr.is_ok()); return 1; }
-        if !in_i64 && !oor(hr.map(|_| ())) { println!("FAILING-INPUT header label {} is not OutOfRangeIntegerValue", x); return 1; }
+        if in_i64 != hr.is_ok() && !(1..=7).contains(&x) { if report("C15,C18", format!("header label {}: ok={}", x, hr.is_ok())) { return 1; } }
+        if !in_i64 && !oor(hr.map(|_| ())) { if report("C15,C18", format!("header label {} is not OutOfRangeIntegerValue", x)) { return 1; } }
         let hv = Value::Map(vec![(Value::from(1000), iv.clone())]);
         match Header::from_cbor_value(hv.clone()) { Ok(h) if h.rest.len() == 1 && h.rest[0].1 == iv && h.clone().to_cbor_value().ok() == Some(hv.clone()) => {}
-            other => { println!("FAILING-INPUT extra parameter value {} not preserved: {:?}", x, other.map(|h| h.rest)); return 1; } }
+            other => { if report("C15,C18", format!("extra parameter value {} not preserved: {:?}", x, other.map(|h| h.rest))) { return 1; } } }
         let km = Value::Map(vec![(Value::from(1), Value::from(4)), (iv.clone(), Value::Null)]);
         let kr = CoseKey::from_cbor_value(km);
-        if !in_i64 && !oor(kr.map(|_| ())) { println!("FAILING-INPUT key label {} is not OutOfRangeIntegerValue", x); return 1; }
+        if !in_i64 && !oor(kr.map(|_| ())) { if report("C15,C18", format!("key label {} is not OutOfRangeIntegerValue", x)) { return 1; } }
     }
     println!("probe integers: {} lattice points x positions, no disagreement", n);
     0
@@ -415,10 +438,10 @@ pub fn probe_order() -> i32 {
     for a in &labels { for b in &labels {
         n += 1;
         let (ea, eb) = (enc_label(a), enc_label(b));
-        if a.cmp(b) != ea.cmp(&eb) { println!("FAILING-INPUT Label::cmp({:?}, {:?}) = {:?}, encodings order {:?}", a, b, a.cmp(b), ea.cmp(&eb)); return 1; }
+        if a.cmp(b) != ea.cmp(&eb) { if report("C16,C20", format!("Label::cmp({:?}, {:?}) = {:?}, encodings order {:?}", a, b, a.cmp(b), ea.cmp(&eb))) { return 1; } }
         let lf = ea.len().cmp(&eb.len()).then(ea.cmp(&eb));
-        if a.cmp_canonical(b) != lf { println!("FAILING-INPUT Label::cmp_canonical({:?}, {:?}) = {:?}, length-first order of encodings {:?}", a, b, a.cmp_canonical(b), lf); return 1; }
-        if (a.cmp(b) == std::cmp::Ordering::Equal) != (a == b) { println!("FAILING-INPUT Label::cmp({:?}, {:?}) Equal inconsistent with ==", a, b); return 1; }
+        if a.cmp_canonical(b) != lf { if report("C16,C20", format!("Label::cmp_canonical({:?}, {:?}) = {:?}, length-first order of encodings {:?}", a, b, a.cmp_canonical(b), lf)) { return 1; } }
+        if (a.cmp(b) == std::cmp::Ordering::Equal) != (a == b) { if report("C16,C20", format!("Label::cmp({:?}, {:?}) Equal inconsistent with ==", a, b)) { return 1; } }
     } }
     // canonicalize: every rotation of a palette of extra labels (no label 0: known finding), both orderings
     let extras: Vec<Label> = vec![Label::Int(-1), Label::Int(24), Label::Int(-24), Label::Int(-25), Label::Int(6), Label::Int(255), Label::Int(-256), Label::Int(256), Label::Int(-257),
@@ -436,14 +459,14 @@ pub fn probe_order() -> i32 {
             c.canonicalize(ord);
             let mut p1 = before.params.clone(); let mut p2 = c.params.clone();
             p1.sort_by(|a, b| enc_label(&a.0).cmp(&enc_label(&b.0))); p2.sort_by(|a, b| enc_label(&a.0).cmp(&enc_label(&b.0)));
-            if p1 != p2 || (CoseKey { params: vec![], ..c.clone() }) != (CoseKey { params: vec![], ..before.clone() }) { println!("FAILING-INPUT canonicalize({}) changed the key content (rotation {})", name, rot); return 1; }
+            if p1 != p2 || (CoseKey { params: vec![], ..c.clone() }) != (CoseKey { params: vec![], ..before.clone() }) { if report("C16,C20", format!("canonicalize({}) changed the key content (rotation {})", name, rot)) { return 1; } }
             let bytes = c.clone().to_vec().unwrap();
             let keys = crate::map_key_encodings(&bytes).unwrap();
             let asc = keys.windows(2).all(|w| if name == "lexicographic" { w[0] < w[1] } else { (w[0].len(), &w[0]) < (w[1].len(), &w[1]) });
-            if !asc { println!("FAILING-INPUT canonicalize({}) of extras rotation {} typed {}: encoded map keys not ascending: {}", name, rot, typed, hex(&bytes)); return 1; }
+            if !asc { if report("C16,C20", format!("canonicalize({}) of extras rotation {} typed {}: encoded map keys not ascending: {}", name, rot, typed, hex(&bytes))) { return 1; } }
             let mut c2 = c.clone(); c2.canonicalize(if name == "lexicographic" { CborOrdering::Lexicographic } else { CborOrdering::LengthFirstLexicographic });
-            if c2 != c { println!("FAILING-INPUT canonicalize({}) is not idempotent (rotation {})", name, rot); return 1; }
-            if CoseKey::from_slice(&bytes).ok().and_then(|k| k.to_vec().ok()) != Some(bytes.clone()) { println!("FAILING-INPUT canonicalised key does not re-encode to the same bytes"); return 1; }
+            if c2 != c { if report("C16,C20", format!("canonicalize({}) is not idempotent (rotation {})", name, rot)) { return 1; } }
+            if CoseKey::from_slice(&bytes).ok().and_then(|k| k.to_vec().ok()) != Some(bytes.clone()) { if report("C16,C20", format!("canonicalised key does not re-encode to the same bytes")) { return 1; } }
         }
     } }
     println!("probe order: {} comparisons, no disagreement", n);
@@ -488,23 +511,23 @@ pub fn probe_keys() -> i32 {
         let want = key_ref(&v);
         let got = CoseKey::from_cbor_value(v.clone());
         let mut b = vec![]; ciborium::ser::into_writer(&v, &mut b).unwrap();
-        if got.is_ok() != want { println!("FAILING-INPUT COSE_Key {}: crate {} it, RFC 8152 7 says {}", hex(&b), if got.is_ok() { "accepts" } else { "rejects" }, if want { "accept" } else { "reject" }); return 1; }
+        if got.is_ok() != want { if report("C10", format!("COSE_Key {}: crate {} it, RFC 8152 7 says {}", hex(&b), if got.is_ok() { "accepts" } else { "rejects" }, if want { "accept" } else { "reject" })) { return 1; } }
         if let Ok(k) = got {
             let get = |x: i64| m.iter().find(|(kk, _)| matches!(label_ref(kk), Some(Ok(y)) if y == x)).map(|(_, v)| v.clone());
             let bb = |x: i64| match get(x) { Some(Value::Bytes(b)) => b, _ => vec![] };
-            if k.key_id != bb(2) || k.base_iv != bb(5) { println!("FAILING-INPUT COSE_Key {}: kid / base IV differ from the wire", hex(&b)); return 1; }
-            if k.kty.clone().to_cbor_value().ok() != get(1) { println!("FAILING-INPUT COSE_Key {}: kty differs from the wire", hex(&b)); return 1; }
-            if k.alg.clone().map(|a| a.to_cbor_value().unwrap()) != get(3) { println!("FAILING-INPUT COSE_Key {}: alg differs from the wire", hex(&b)); return 1; }
+            if k.key_id != bb(2) || k.base_iv != bb(5) { if report("C10", format!("COSE_Key {}: kid / base IV differ from the wire", hex(&b))) { return 1; } }
+            if k.kty.clone().to_cbor_value().ok() != get(1) { if report("C10", format!("COSE_Key {}: kty differs from the wire", hex(&b))) { return 1; } }
+            if k.alg.clone().map(|a| a.to_cbor_value().unwrap()) != get(3) { if report("C10", format!("COSE_Key {}: alg differs from the wire", hex(&b))) { return 1; } }
             let mut ops: Vec<Value> = k.key_ops.iter().map(|o| o.clone().to_cbor_value().unwrap()).collect();
             let mut wops = match get(4) { Some(Value::Array(a)) => a, _ => vec![] };
             let key = |v: &Value| { let mut e = vec![]; ciborium::ser::into_writer(v, &mut e).unwrap(); e };
             ops.sort_by_key(key); wops.sort_by_key(key);
-            if ops != wops { println!("FAILING-INPUT COSE_Key {}: key_ops differ from the wire", hex(&b)); return 1; }
+            if ops != wops { if report("C10", format!("COSE_Key {}: key_ops differ from the wire", hex(&b))) { return 1; } }
             let rest: Vec<(Value, Value)> = m.iter().filter(|(kk, _)| !matches!(label_ref(kk), Some(Ok(x)) if (1..=5).contains(&x))).cloned().collect();
             let gotp: Vec<(Value, Value)> = k.params.iter().map(|(l, v)| (l.clone().to_cbor_value().unwrap(), v.clone())).collect();
-            if rest != gotp { println!("FAILING-INPUT COSE_Key {}: extra parameters differ from the wire (content or order)", hex(&b)); return 1; }
+            if rest != gotp { if report("C10", format!("COSE_Key {}: extra parameters differ from the wire (content or order)", hex(&b))) { return 1; } }
             // decode(encode(k)) == k, and the set form
-            match k.clone().to_cbor_value().and_then(CoseKey::from_cbor_value) { Ok(k2) if k2 == k => {}, _ => { println!("FAILING-INPUT COSE_Key {}: does not survive encode/decode", hex(&b)); return 1; } }
+            match k.clone().to_cbor_value().and_then(CoseKey::from_cbor_value) { Ok(k2) if k2 == k => {}, _ => { if report("C10", format!("COSE_Key {}: does not survive encode/decode", hex(&b))) { return 1; } } }
         }
     }
     let good = Value::Map(vec![(Value::from(1), Value::from(4))]);
@@ -512,9 +535,9 @@ pub fn probe_keys() -> i32 {
     for (arr, want) in [(vec![], true), (vec![good.clone()], true), (vec![good.clone(), good.clone()], true), (vec![good.clone(), bad.clone()], false), (vec![bad.clone()], false)] {
         n += 1;
         let r = CoseKeySet::from_cbor_value(Value::Array(arr.clone()));
-        if r.is_ok() != want || matches!(r.map(|s| s.0.len() == arr.len()), Ok(false)) { println!("FAILING-INPUT COSE_KeySet of {} elements: wrong verdict or length", arr.len()); return 1; }
+        if r.is_ok() != want || matches!(r.map(|s| s.0.len() == arr.len()), Ok(false)) { if report("C10", format!("COSE_KeySet of {} elements: wrong verdict or length", arr.len())) { return 1; } }
     }
-    if CoseKeySet::from_cbor_value(good.clone()).is_ok() { println!("FAILING-INPUT COSE_KeySet accepts a map"); return 1; }
+    if CoseKeySet::from_cbor_value(good.clone()).is_ok() { if report("C10", format!("COSE_KeySet accepts a map")) { return 1; } }
     println!("probe keys: {} cases, no disagreement", n);
     0
 }
@@ -557,17 +580,17 @@ pub fn probe_claims() -> i32 {
         let want = claims_ref(&v);
         let got = cwt::ClaimsSet::from_cbor_value(v.clone());
         let mut b = vec![]; ciborium::ser::into_writer(&v, &mut b).unwrap();
-        if got.is_ok() != want { println!("FAILING-INPUT CWT claims set {}: crate {} it, RFC 8392 says {}", hex(&b), if got.is_ok() { "accepts" } else { "rejects" }, if want { "accept" } else { "reject" }); return 1; }
+        if got.is_ok() != want { if report("C18", format!("CWT claims set {}: crate {} it, RFC 8392 says {}", hex(&b), if got.is_ok() { "accepts" } else { "rejects" }, if want { "accept" } else { "reject" })) { return 1; } }
         if let Ok(c) = got {
             let get = |x: i64| m.iter().find(|(kk, _)| matches!(kk, Value::Integer(i) if i128_of(i) == x as i128)).map(|(_, v)| v.clone());
             let t = |o: &Option<String>| o.clone().map(Value::Text);
             let ts = |o: &Option<cwt::Timestamp>| o.clone().map(|x| x.to_cbor_value().unwrap());
             let same = |a: Option<Value>, b: Option<Value>| match (&a, &b) { (Some(Value::Float(x)), Some(Value::Float(y))) => x.to_bits() == y.to_bits() || (x.is_nan() && y.is_nan()), _ => a == b };
             if t(&c.issuer) != get(1) || t(&c.subject) != get(2) || t(&c.audience) != get(3) || !same(ts(&c.expiration_time), get(4)) || !same(ts(&c.not_before), get(5)) || !same(ts(&c.issued_at), get(6))
-                || c.cwt_id.clone().map(Value::Bytes) != get(7) { println!("FAILING-INPUT CWT claims set {}: a typed claim differs from the wire", hex(&b)); return 1; }
+                || c.cwt_id.clone().map(Value::Bytes) != get(7) { if report("C18", format!("CWT claims set {}: a typed claim differs from the wire", hex(&b))) { return 1; } }
             let rest: Vec<(Value, Value)> = m.iter().filter(|(kk, _)| !matches!(kk, Value::Integer(i) if (1..=7).contains(&i128_of(i)))).cloned().collect();
             let gotr: Vec<(Value, Value)> = c.rest.iter().map(|(l, v)| (l.clone().to_cbor_value().unwrap(), v.clone())).collect();
-            if rest.len() != gotr.len() || rest.iter().zip(&gotr).any(|(a, b)| a.0 != b.0 || !same(Some(a.1.clone()), Some(b.1.clone()))) { println!("FAILING-INPUT CWT claims set {}: other claims differ (content or order)", hex(&b)); return 1; }
+            if rest.len() != gotr.len() || rest.iter().zip(&gotr).any(|(a, b)| a.0 != b.0 || !same(Some(a.1.clone()), Some(b.1.clone()))) { if report("C18", format!("CWT claims set {}: other claims differ (content or order)", hex(&b))) { return 1; } }
         }
     }
     // KDF context: arities 0..7, slot kinds
@@ -581,23 +604,23 @@ pub fn probe_claims() -> i32 {
         while a.len() < ar { a.push(Value::Bytes(vec![a.len() as u8])); }
         a.truncate(ar);
         let r = CoseKdfContext::from_cbor_value(Value::Array(a.clone()));
-        if r.is_ok() != (ar >= 4) { println!("FAILING-INPUT COSE_KDF_Context of arity {}: ok={}", ar, r.is_ok()); return 1; }
-        if let Ok(c) = r { if c.to_cbor_value().ok() != Some(Value::Array(a.clone())) { println!("FAILING-INPUT COSE_KDF_Context of arity {} does not encode back to the same array", ar); return 1; } }
+        if r.is_ok() != (ar >= 4) { if report("C18", format!("COSE_KDF_Context of arity {}: ok={}", ar, r.is_ok())) { return 1; } }
+        if let Ok(c) = r { if c.to_cbor_value().ok() != Some(Value::Array(a.clone())) { if report("C18", format!("COSE_KDF_Context of arity {} does not encode back to the same array", ar)) { return 1; } } }
     }
     for (i, k) in slot_kinds.iter().enumerate() { for pos in 0..3 {
         n += 1;
         let mut p = vec![Value::Null, Value::Null, Value::Null]; p[pos] = k.clone();
         let want = match (pos, i) { (_, 0) | (_, 1) => true, (1, 2) | (1, 3) => true, _ => false };
         let r = PartyInfo::from_cbor_value(Value::Array(p.clone()));
-        if r.is_ok() != want { println!("FAILING-INPUT PartyInfo slot {} holding kind #{}: ok={} want {}", pos, i, r.is_ok(), want); return 1; }
-        if let Ok(x) = r { if x.to_cbor_value().ok() != Some(Value::Array(p.clone())) { println!("FAILING-INPUT PartyInfo does not encode back"); return 1; } }
+        if r.is_ok() != want { if report("C18", format!("PartyInfo slot {} holding kind #{}: ok={} want {}", pos, i, r.is_ok(), want)) { return 1; } }
+        if let Ok(x) = r { if x.to_cbor_value().ok() != Some(Value::Array(p.clone())) { if report("C18", format!("PartyInfo does not encode back")) { return 1; } } }
         let a = vec![Value::from(1), okp.clone(), Value::Array(p), supp.clone(), Value::Bytes(vec![])];
-        if CoseKdfContext::from_cbor_value(Value::Array(a)).is_ok() != want { println!("FAILING-INPUT COSE_KDF_Context with PartyV slot {} kind #{}", pos, i); return 1; }
+        if CoseKdfContext::from_cbor_value(Value::Array(a)).is_ok() != want { if report("C18", format!("COSE_KDF_Context with PartyV slot {} kind #{}", pos, i)) { return 1; } }
     } }
     for (sp, want) in [(vec![Value::from(1)], false), (vec![Value::from(-1), Value::Bytes(vec![])], false), (vec![Value::from(1), Value::Bytes(vec![]), Value::Bytes(vec![2])], true),
                        (vec![Value::from(1), Value::Bytes(vec![]), Value::Null], false), (vec![Value::from(1), Value::Bytes(vec![0xa0, 0x00])], false), (vec![Value::from(u64::MAX), Value::Bytes(vec![0xa0])], true)] {
         n += 1;
-        if SuppPubInfo::from_cbor_value(Value::Array(sp.clone())).is_ok() != want { println!("FAILING-INPUT SuppPubInfo {:?}: want ok={}", sp, want); return 1; }
+        if SuppPubInfo::from_cbor_value(Value::Array(sp.clone())).is_ok() != want { if report("C18", format!("SuppPubInfo {:?}: want ok={}", sp, want)) { return 1; } }
     }
     println!("probe claims: {} cases, no disagreement", n);
     0
@@ -629,33 +652,33 @@ pub fn probe_builders() -> i32 {
         let mut bld = HeaderBuilder::new();
         for call in [a, b, c] { bld = apply(bld, &mut model, call); }
         let built = bld.build();
-        if built != model { println!("FAILING-INPUT HeaderBuilder sequence #{}: built {:?}, documented effects give {:?}", n, built, model); return 1; }
-        if !built.iv.is_empty() && !built.partial_iv.is_empty() { println!("FAILING-INPUT HeaderBuilder sequence #{} carries both IV and Partial IV", n); return 1; }
+        if built != model { if report("C19", format!("HeaderBuilder sequence #{}: built {:?}, documented effects give {:?}", n, built, model)) { return 1; } }
+        if !built.iv.is_empty() && !built.partial_iv.is_empty() { if report("C19", format!("HeaderBuilder sequence #{} carries both IV and Partial IV", n)) { return 1; } }
     } } }
     // reserved labels are refused (documented panic), every other label is appended
     std::panic::set_hook(Box::new(|_| {}));
     for l in -2i64..=12 {
         n += 1;
         let r = std::panic::catch_unwind(|| HeaderBuilder::new().value(l, Value::Null).build());
-        if r.is_err() != (1..=7).contains(&l) { println!("FAILING-INPUT HeaderBuilder::value({}) panicked={}", l, r.is_err()); return 1; }
+        if r.is_err() != (1..=7).contains(&l) { if report("C19", format!("HeaderBuilder::value({}) panicked={}", l, r.is_err())) { return 1; } }
         let r = std::panic::catch_unwind(|| CoseKeyBuilder::new_okp_key().param(l, Value::Null).build());
-        if r.is_err() != (0..=5).contains(&l) { println!("FAILING-INPUT CoseKeyBuilder::param({}) panicked={}", l, r.is_err()); return 1; }
+        if r.is_err() != (0..=5).contains(&l) { if report("C19", format!("CoseKeyBuilder::param({}) panicked={}", l, r.is_err())) { return 1; } }
     }
     for id in [-65538i64, -65537, -65536, -1, 0, 1, 100000] {
         n += 1;
         let r = std::panic::catch_unwind(|| cwt::ClaimsSetBuilder::new().private_claim(id, Value::Null).build());
-        if r.is_err() != (id >= -65536) { println!("FAILING-INPUT ClaimsSetBuilder::private_claim({}) panicked={}", id, r.is_err()); return 1; }
+        if r.is_err() != (id >= -65536) { if report("C19", format!("ClaimsSetBuilder::private_claim({}) panicked={}", id, r.is_err())) { return 1; } }
     }
     // message builders: setter replaces only its field; protected setter drops retained bytes
     let h1 = HeaderBuilder::new().key_id(vec![1]).build();
     let h2 = HeaderBuilder::new().key_id(vec![2]).build();
     let s = CoseSign1Builder::new().protected(h1.clone()).unprotected(h2.clone()).payload(vec![3]).signature(vec![4]).protected(h2.clone()).build();
     let want = CoseSign1 { protected: ProtectedHeader { original_data: None, header: h2.clone() }, unprotected: h2.clone(), payload: Some(vec![3]), signature: vec![4] };
-    if s != want { println!("FAILING-INPUT CoseSign1Builder protected/unprotected/payload/signature/protected: {:?}", s); return 1; }
+    if s != want { if report("C19", format!("CoseSign1Builder protected/unprotected/payload/signature/protected: {:?}", s)) { return 1; } }
     let k = CoseKeyBuilder::new_ec2_priv_key(iana::EllipticCurve::P_256, vec![1], vec![2], vec![3]).key_id(vec![9]).add_key_op(iana::KeyOperation::Sign).add_key_op(iana::KeyOperation::Sign).build();
     if k.kty != KeyType::Assigned(iana::KeyType::EC2) || k.key_id != vec![9] || k.key_ops.len() != 1 || k.alg.is_some() || !k.base_iv.is_empty()
         || k.params != vec![(Label::Int(-1), Value::from(1)), (Label::Int(-2), Value::Bytes(vec![1])), (Label::Int(-3), Value::Bytes(vec![2])), (Label::Int(-4), Value::Bytes(vec![3]))] {
-        println!("FAILING-INPUT CoseKeyBuilder::new_ec2_priv_key(..).key_id.add_key_op x2: {:?}", k); return 1; }
+        if report("C19", format!("CoseKeyBuilder::new_ec2_priv_key(..).key_id.add_key_op x2: {:?}", k)) { return 1; } }
     println!("probe builders: {} cases, no disagreement", n);
     0
 }
@@ -668,26 +691,26 @@ pub fn probe_roundtrip() -> i32 {
         vec![0xa1, 0x18, 0x63, 0xfb, 0x7f, 0xf8, 0, 0, 0, 0, 0, 0], vec![0xa1, 0x18, 0x63, 0xfa, 0x7f, 0xc0, 0, 0], vec![0xa1, 0x18, 0x63, 0xf9, 0x3e, 0x00],
         vec![0xa1, 0x07, 0x83, 0x43, 0xa1, 0x01, 0x26, 0xa0, 0x41, 0x07], vec![0xa2, 0x63, b'a', b'b', b'c', 0x01, 0x39, 0x01, 0x00, 0x9f, 0x01, 0xff]];
     let unprot: Vec<Vec<u8>> = vec![vec![0xa0], vec![0xa1, 0x04, 0x41, 0x0b], vec![0xa1, 0x07, 0x82, 0x83, 0x40, 0xa0, 0x40, 0x83, 0x41, 0xa0, 0xa1, 0x05, 0x41, 0x01, 0x41, 0x02]];
-    macro_rules! fixed_point { ($t:ty, $bytes:expr, $name:expr) => {{
+    macro_rules! fixed_point { ($t:ty, $bytes:expr, $name:expr) => {'fp: {
         n += 1;
         let b: Vec<u8> = $bytes;
         if let Ok(v) = <$t>::from_slice(&b) {
-            let b1 = match v.clone().to_vec() { Ok(x) => x, Err(e) => { println!("FAILING-INPUT {} {}: decoded value does not encode ({:?})", $name, hex(&b), e); return 1; } };
-            let v1 = match <$t>::from_slice(&b1) { Ok(x) => x, Err(e) => { println!("FAILING-INPUT {} {}: re-encoding {} does not decode ({:?})", $name, hex(&b), hex(&b1), e); return 1; } };
+            let b1 = match v.clone().to_vec() { Ok(x) => x, Err(e) => { if report("C07", format!("{} {}: decoded value does not encode ({:?})", $name, hex(&b), e)) { return 1; } break 'fp; } };
+            let v1 = match <$t>::from_slice(&b1) { Ok(x) => x, Err(e) => { if report("C07", format!("{} {}: re-encoding {} does not decode ({:?})", $name, hex(&b), hex(&b1), e)) { return 1; } break 'fp; } };
             let b2 = v1.clone().to_vec().unwrap();
-            if b2 != b1 { println!("FAILING-INPUT {} {}: encode is not a fixed point after one step ({} then {})", $name, hex(&b), hex(&b1), hex(&b2)); return 1; }
-            if format!("{:?}", v1) != format!("{:?}", v) { println!("FAILING-INPUT {} {}: value changed across encode/decode", $name, hex(&b)); return 1; }
+            if b2 != b1 { if report("C07", format!("{} {}: encode is not a fixed point after one step ({} then {})", $name, hex(&b), hex(&b1), hex(&b2))) { return 1; } }
+            if format!("{:?}", v1) != format!("{:?}", v) { if report("C07", format!("{} {}: value changed across encode/decode", $name, hex(&b))) { return 1; } }
         }
     }}; }
     for p in &prot_wires { for u in &unprot {
         let mut s1 = vec![0x84]; s1.extend(bstr(p)); s1.extend(u); s1.extend([0x41, 0x01, 0x41, 0x02]);
         fixed_point!(CoseSign1, s1.clone(), "COSE_Sign1");
         if let Ok(v) = CoseSign1::from_slice(&s1) {
-            if v.protected.original_data.as_deref() != Some(&p[..]) { println!("FAILING-INPUT COSE_Sign1 {}: protected bytes not retained", hex(&s1)); return 1; }
+            if v.protected.original_data.as_deref() != Some(&p[..]) { if report("C02,C07", format!("COSE_Sign1 {}: protected bytes not retained", hex(&s1))) { return 1; } }
             let re = v.clone().to_vec().unwrap();
-            if !re.windows(bstr(p).len()).any(|w| w == &bstr(p)[..]) { println!("FAILING-INPUT COSE_Sign1 {}: re-encoding {} does not carry the received protected bytes", hex(&s1), hex(&re)); return 1; }
+            if !re.windows(bstr(p).len()).any(|w| w == &bstr(p)[..]) { if report("C02,C07", format!("COSE_Sign1 {}: re-encoding {} does not carry the received protected bytes", hex(&s1), hex(&re))) { return 1; } }
             let mut t = head(6, 18); t.extend(&s1);
-            if CoseSign1::from_tagged_slice(&t).ok().and_then(|x| x.to_tagged_vec().ok()).map(|x| CoseSign1::from_tagged_slice(&x).is_ok()) != Some(true) { println!("FAILING-INPUT tagged COSE_Sign1 {} does not survive", hex(&t)); return 1; }
+            if CoseSign1::from_tagged_slice(&t).ok().and_then(|x| x.to_tagged_vec().ok()).map(|x| CoseSign1::from_tagged_slice(&x).is_ok()) != Some(true) { if report("C07,C14", format!("tagged COSE_Sign1 {} does not survive", hex(&t))) { return 1; } }
         }
         let mut m0 = vec![0x84]; m0.extend(bstr(p)); m0.extend(u); m0.extend([0xf6, 0x41, 0x02]);
         fixed_point!(CoseMac0, m0, "COSE_Mac0");
@@ -716,20 +739,20 @@ pub fn probe_roundtrip() -> i32 {
     let enc = hdr.clone().to_vec().unwrap();
     let want: Vec<u8> = [vec![0xa5, 0x01, 0x26], tstr("t"), vec![0x01, 0x18, 99, 0xf6], tstr("a"), vec![0x02, 0x24, 0xf6]].concat();
     n += 1;
-    if enc != want { println!("FAILING-INPUT Header with extras [t, 99, a, -5] encodes to {}, documented shape {}", hex(&enc), hex(&want)); return 1; }
-    if Header::from_slice(&enc).ok() != Some(hdr.clone()) { println!("FAILING-INPUT Header {} does not decode back to the value that was encoded", hex(&enc)); return 1; }
+    if enc != want { if report("C11", format!("Header with extras [t, 99, a, -5] encodes to {}, documented shape {}", hex(&enc), hex(&want))) { return 1; } }
+    if Header::from_slice(&enc).ok() != Some(hdr.clone()) { if report("C11", format!("Header {} does not decode back to the value that was encoded", hex(&enc))) { return 1; } }
     let two = HeaderBuilder::new().add_counter_signature(CoseSignature::default()).add_counter_signature(CoseSignature { signature: vec![1], ..Default::default() }).build();
     let one = HeaderBuilder::new().add_counter_signature(CoseSignature { signature: vec![1], ..Default::default() }).build();
     n += 2;
-    if one.clone().to_vec().unwrap() != vec![0xa1, 0x07, 0x83, 0x40, 0xa0, 0x41, 0x01] { println!("FAILING-INPUT single counter signature is not inlined: {}", hex(&one.to_vec().unwrap())); return 1; }
-    if two.clone().to_vec().unwrap() != vec![0xa1, 0x07, 0x82, 0x83, 0x40, 0xa0, 0x40, 0x83, 0x40, 0xa0, 0x41, 0x01] { println!("FAILING-INPUT two counter signatures: {}", hex(&two.to_vec().unwrap())); return 1; }
+    if one.clone().to_vec().unwrap() != vec![0xa1, 0x07, 0x83, 0x40, 0xa0, 0x41, 0x01] { if report("C11", format!("single counter signature is not inlined: {}", hex(&one.to_vec().unwrap()))) { return 1; } }
+    if two.clone().to_vec().unwrap() != vec![0xa1, 0x07, 0x82, 0x83, 0x40, 0xa0, 0x40, 0x83, 0x40, 0xa0, 0x41, 0x01] { if report("C11", format!("two counter signatures: {}", hex(&two.to_vec().unwrap()))) { return 1; } }
     let s1 = CoseSign1Builder::new().protected(hdr.clone()).payload(vec![]).build();
     let b = s1.clone().to_vec().unwrap();
     let mut want = vec![0x84]; want.extend(bstr(&enc)); want.extend([0xa0, 0x40, 0x40]);
     n += 1;
-    if b != want { println!("FAILING-INPUT COSE_Sign1 built from that header encodes to {}, documented shape {}", hex(&b), hex(&want)); return 1; }
+    if b != want { if report("C11", format!("COSE_Sign1 built from that header encodes to {}, documented shape {}", hex(&b), hex(&want))) { return 1; } }
     let empty = CoseSign1Builder::new().build().to_vec().unwrap();
-    if empty != vec![0x84, 0x40, 0xa0, 0xf6, 0x40] { println!("FAILING-INPUT default COSE_Sign1 encodes to {}", hex(&empty)); return 1; }
+    if empty != vec![0x84, 0x40, 0xa0, 0xf6, 0x40] { if report("C11", format!("default COSE_Sign1 encodes to {}", hex(&empty))) { return 1; } }
     println!("probe roundtrip: {} cases, no disagreement", n);
     0
 }
